@@ -1,4 +1,5 @@
-from props.smtpcommon import post, nontrivial  # noqa: F401
+from props.smtpcommon import nontrivial  # noqa: F401
+from props import smtpcommon
 
 ID = "C17"
 LEVEL = "proof"
@@ -43,3 +44,37 @@ def shrink_candidates(inp):
         q = list(parts)
         q[12] = cand.hex() or "-"
         yield " ".join(q)
+
+
+def post(run):
+    """Distribution statistics, then the concurrent-session cases once more under the race detector:
+    handlers invoked from many sessions at once must not race on shared state."""
+    import os
+    from vcheck import core
+    smtpcommon.post(run)
+    racebin = run.drive + "_race"
+    rc, o, dt = core.go_build("./cmd/c17", racebin, race=True)
+    extra = run.cov.setdefault("extra", {})
+    if rc != 0:
+        extra["race_stream"] = {"ran": False, "why": "race build failed: " + o[-300:]}
+        return
+    inp = os.path.join(run.dir, "inputs.txt")
+    lines = [l for l in open(inp) if l.startswith("luapar ")] if os.path.exists(inp) else []
+    lines = lines[:20 if run.tier == "quick" else 400]
+    if not lines:
+        return
+    rin = os.path.join(run.dir, "race.in.txt")
+    with open(rin, "w") as f:
+        f.writelines(lines)
+    env = run.driver_env()
+    env["GORACE"] = "halt_on_error=0"
+    rc, err = core.sh([racebin, "exec"], timeout=1800, stdin_path=rin, stdout_path=os.path.join(run.dir, "race.cases.txt"),
+                      env=env, cwd=run.dir)
+    n = err.count("WARNING: DATA RACE")
+    extra["race_stream"] = {"ran": True, "cases": len(lines), "data_races_reported": n, "build_s": round(dt, 1)}
+    if n:
+        i = err.index("WARNING: DATA RACE")
+        run.violation("race", {"what": "the race detector reports a data race while hook handlers run from concurrent SMTP sessions",
+                               "first_report": err[i:i + 3000], "cases": [l.rstrip("\n")[:300] for l in lines[:3]],
+                               "case": lines[0].rstrip("\n"),
+                               "note": "replay: run the luapar cases of this seed with a -race build of go/cmd/c17"}, True)
